@@ -20,8 +20,19 @@ type fsFile struct {
 	exists bool
 }
 
+// statInfo: what os.Stat reports (a snapshot, as the real one).
+type statInfo struct {
+	name    Str
+	size    int
+	symSize *Term // set when the byte length is not modelled (any value)
+	dir     bool
+}
+
 type openFile struct {
 	f      *fsFile
+	pos    int // file offset of the next write (O_APPEND: the end, at every write)
+	over   bool // opened for writing over existing content (no O_TRUNC, no O_APPEND)
+	ex     *Exec
 	closed bool
 	wr     bool
 	rd     bool
@@ -35,6 +46,7 @@ type FS struct {
 	dirs    []Str
 	tmpN    int
 	crashOn bool
+	windows int // crash windows opened so far
 	crashAt *Term // step number at which the process dies (0 = never)
 	partial *Term // bytes written by the interrupted write
 	step    int
@@ -217,6 +229,8 @@ func (ex *Exec) openFileModel(name Str, flag int) Value {
 		}
 	}
 	of := &openFile{f: f, wr: flag&(oWRONLY|oRDWR) != 0, rd: flag&oWRONLY == 0, app: flag&oAPPEND != 0}
+	of.over = of.wr && !of.app && len(f.data) > 0
+	of.ex = ex
 	return Tuple{ex.newFileHandle(of), Iface{}}
 }
 
@@ -233,19 +247,56 @@ func (ex *Exec) writeModel(of *openFile, data []Value) Value {
 		fs.log = append(fs.log, "write "+of.f.path.Describe())
 		if ex.branch(ex.ts.Eq(fs.crashAt, ex.ts.Const(64, uint64(fs.step)))) {
 			// the process dies inside the write: a prefix has been written
-			ex.assume(ex.ts.Ule(fs.partial, ex.ts.Const(64, uint64(len(data)-1))))
-			n := int(ex.concretize(fs.partial, 0, uint64(len(data)-1)))
+			// how much of the interrupted write got out: 0..8 bytes, half of
+			// it, or all but the last byte (the stated bound on partial writes)
+			ts := ex.ts
+			last := uint64(len(data) - 1)
+			ex.assume(ts.Ule(fs.partial, ts.Const(64, last)))
+			ex.assume(ts.Or(ts.Ule(fs.partial, ts.Const(64, 8)),
+				ts.Or(ts.Eq(fs.partial, ts.Const(64, uint64(len(data)/2))), ts.Eq(fs.partial, ts.Const(64, last)))))
+			n := int(ex.concretize(fs.partial, 0, last))
 			fs.crashedAt, fs.crashPart = fs.step, n
-			for _, v := range data[:n] {
-				of.f.data = append(of.f.data, copyVal(v))
-			}
+			of.put(data[:n])
 			panic(crashSignal{})
 		}
 	}
-	for _, v := range data {
-		of.f.data = append(of.f.data, copyVal(v))
-	}
+	of.put(data)
 	return Tuple{ex.ts.Const(64, uint64(len(data))), Iface{}}
+}
+
+// put writes at the file offset: over what is there, extending the file at
+// its end (a file opened without O_TRUNC keeps the bytes not written over).
+func (of *openFile) put(data []Value) {
+	if of.app {
+		of.pos = len(of.f.data)
+	}
+	if of.over && len(data) > 0 {
+		// writing over content that was there, without truncation: a record of
+		// the model has no byte length (it is a structural snapshot), so
+		// whether what is written is shorter than what was there is not known
+		// here. Both are explored: if shorter, a piece of the old content
+		// stays behind at the end (a mixed file); the native replay decides
+		// whether the real byte lengths make it so.
+		of.over = false
+		ex := of.ex
+		// Before the first crash window (the harness setting up its history)
+		// this is not explored: the write is taken to cover what was there.
+		if ex.fs().windows > 0 {
+			shorter := ex.draw("fs:written-is-shorter-than-what-was-there", "fmt", 8, 0, 1)
+			if ex.branch(ex.ts.Eq(shorter, ex.ts.Const(8, 1))) {
+				tail := of.f.data[len(of.f.data)-1]
+				defer func() { of.f.data = append(of.f.data, tail) }()
+			}
+		}
+	}
+	for _, v := range data {
+		if of.pos < len(of.f.data) {
+			of.f.data[of.pos] = copyVal(v)
+		} else {
+			of.f.data = append(of.f.data, copyVal(v))
+		}
+		of.pos++
+	}
 }
 
 func (ex *Exec) sliceData(v Value) []Value {
@@ -352,6 +403,37 @@ func initOsStubs() {
 	}
 	reg("io.ReadAll", readAll)
 	reg("io/ioutil.ReadAll", readAll)
+	stat := func(ex *Exec, fn *ssa.Function, args []Value, caller *Frame) Value {
+		name := strArg(ex, args[0], "os.Stat")
+		if name.HasOpaque() {
+			ex.unsupported("file path with opaque content")
+		}
+		if ex.hasNUL(name) {
+			return Tuple{Iface{}, ex.pathError("stat", name, "ErrInvalid")}
+		}
+		it := ex.P.namedType("io/fs", "FileInfo")
+		if ex.isDir(name) {
+			return Tuple{Iface{T: it, V: &Host{Kind: "os.FileInfo", Data: &statInfo{name: name, dir: true}}}, Iface{}}
+		}
+		f := ex.findFile(name)
+		if f == nil {
+			return Tuple{Iface{}, ex.pathError("stat", name, "ErrNotExist")}
+		}
+		_, base := ex.dirOf(name)
+		si := &statInfo{name: base, size: len(f.data)}
+		for _, c := range f.data {
+			if _, blob := c.(BlobCell); blob && ex.fs().windows > 0 {
+				// a marshalled record: the model has no byte length for it
+				// (any value from the first crash window on; before that the
+				// number of cells, so that set-up histories do not fork)
+				si.symSize = ex.draw("fs:record-size", "fmt", 64, 1, 1<<20)
+				break
+			}
+		}
+		return Tuple{Iface{T: it, V: &Host{Kind: "os.FileInfo", Data: si}}, Iface{}}
+	}
+	reg("os.Stat", stat)
+	reg("os.Lstat", stat)
 	reg("os.ReadFile", func(ex *Exec, fn *ssa.Function, args []Value, caller *Frame) Value {
 		name := strArg(ex, args[0], "os.ReadFile")
 		if ex.hasNUL(name) {
